@@ -1,10 +1,227 @@
-(** * C20 - lint verdicts are exactly the documented mistakes, at any scale. (work in progress) *)
-From Coq Require Import List ZArith NArith Bool String.
-From RG Require Import Base.Str Base.Num Model.Recipe Model.Units Model.Lint.
+(** * C20 - lint verdicts are exactly the documented mistakes, at any scale.
+
+    "For every compiled recipe the linter terminates and reports an unused
+    ingredient exactly for each up-front ingredient that is never mentioned
+    again, and reports on the uses of a split sub recipe exactly as
+    documented: nothing when the uses add up to the whole (within 2%) or end
+    with a remainder of something left, 'not used up' or 'used too much'
+    otherwise, 'no remainder left' when a remainder follows full use,
+    'incompatible units' and 'unknown total' when amounts cannot be compared.
+    The verdicts do not change when the recipe is scaled by any positive
+    factor."
+
+    Model: Model/Lint.v ([lint_check] = recipe_grid.lint.check, every Python
+    coercion and the float accumulator made explicit), tied to
+    recipe_grid/lint.py by the correspondence suite "lint".  Specification:
+    Spec/LintSpec.v (verdicts over Q).  Proofs: Proofs/LintProofs.v,
+    Proofs/LintB64.v (facts about the binary64 rounding function).
+
+    Vocabulary:
+    - [occurs x bs]: node x is written in recipe bs (at any depth, not
+      entering the copies of sub recipes that references embed);
+    - [is_hidden x]: x is a sub recipe with one output whose name is not
+      shown = an ingredient written up front on its own line;
+    - [is_referenced x bs]: some reference written in bs refers to a value
+      [==] to x;
+    - [unused_set bs]: the set [check_for_unused_ingredients] reports;
+    - [not_tiny v]: v is a float, or zero, or at least 2^-1074 in magnitude
+      (so float(v) is not 0.0 unless v is 0);
+    - [exact v]: int or Fraction; [exact_conversions bs]: in every group of
+      uses the linter forms, each quantity converts to the total's unit by an
+      int / Fraction factor (g, kg, ml, l, tsp, tbsp, ... or no units at all)
+      and not by a float factor (lb, oz to g; cup, pint);
+    - [use_of total r]: the abstract use (Spec/LintSpec.v) of reference r;
+    - [run_exact], [tolerance_agrees]: no rounding happened in any
+      [used_proportion += ...] of this run / the final 2% test on the float
+      decided as it would in exact arithmetic. *)
+From Coq Require Import List ZArith NArith QArith Bool String Lia.
+From RG Require Import Base.Str Base.Num Model.Recipe Model.Units Model.Lint Spec.LintSpec
+  Proofs.RecipeScale Proofs.LintProofs.
 Import ListNotations.
 
+(** ** Small recipes used in the examples *)
+Definition qty (v : num) (u : option string) : quantity := mkQ v (option_map s u) [] [].
+Definition up_front (name : string) (v : num) (u : option string) : node :=
+  SubRecipe (Ingredient [PStr (s name)] (Some (qty v u))) [[PStr (s name)]] false.
+Definition use_qty (sr : node) (step : string) (v : num) (u : option string) : node :=
+  Step [PStr (s step)] [Reference sr 0 (AQty (qty v u))].
+Definition use_prop (sr : node) (step : string) (p : num) : node :=
+  Step [PStr (s step)] [Reference sr 0 (AProp (PropVal p false (s " of")))].
+Definition use_rest (sr : node) (step : string) : node :=
+  Step [PStr (s step)] [Reference sr 0 (AProp (PropRem (s "remaining") []))].
+
+(** "4 eggs / fry(1 eggs) / boil(3 eggs) / bake(remaining eggs)" *)
+Definition eggs := up_front "eggs" (NInt 4) None.
+Definition eggs_recipe : list (list node) :=
+  [[eggs; use_qty eggs "fry" (NInt 1) None; use_qty eggs "boil" (NInt 3) None; use_rest eggs "bake"]].
+
+(** "55ml spam / boil(6ml spam) / boil(15ml spam) / mix(31ml spam) / fry(3ml spam) / bake(rest of the spam)" *)
+Definition spam55 := up_front "spam" (NInt 55) (Some "ml"%string).
+Definition spam55_uses : list node :=
+  [Reference spam55 0 (AQty (qty (NInt 6) (Some "ml"%string)));
+   Reference spam55 0 (AQty (qty (NInt 15) (Some "ml"%string)));
+   Reference spam55 0 (AQty (qty (NInt 31) (Some "ml"%string)));
+   Reference spam55 0 (AQty (qty (NInt 3) (Some "ml"%string)));
+   Reference spam55 0 (AProp (PropRem (s "remaining") []))].
+Definition spam55_recipe : list (list node) :=
+  [spam55 :: map (fun r => Step [PStr (s "do")] [r]) spam55_uses].
+
+(** "45359237g spam / fry(1lb spam) / fry(2lb spam) / fry(99997lb spam) / bake(remaining spam)" *)
+Definition spam_lb := up_front "spam" (NInt 45359237) (Some "g"%string).
+Definition spam_lb_recipe : list (list node) :=
+  [[spam_lb; use_qty spam_lb "fry" (NInt 1) (Some "lb"%string); use_qty spam_lb "fry" (NInt 2) (Some "lb"%string);
+    use_qty spam_lb "fry" (NInt 99997) (Some "lb"%string); use_rest spam_lb "bake"]].
+
 Example C20_smoke :
-  lint_check [[SubRecipe (Ingredient [PStr (s "spam")] (Some (mkQ (NInt 4) None [] []))) [[PStr (s "spam")]] false;
-               Step [PStr (s "fry")] [Reference (SubRecipe (Ingredient [PStr (s "spam")] (Some (mkQ (NInt 4) None [] []))) [[PStr (s "spam")]] false) 0 (AQty (mkQ (NInt 1) None [] []))]]]
-  = LOk [(sub_recipe_not_used_up, s "spam")].
-Proof. vm_compute. reflexivity. Qed.
+  lint_check [[eggs; use_qty eggs "fry" (NInt 1) None; up_front "ham" (NInt 1) None]]
+  = LOk [(unused_ingredient, s "ham"); (sub_recipe_not_used_up, s "eggs")] /\
+  lint_check eggs_recipe = LOk [(sub_recipe_reference_non_positive_remainder, s "eggs")].
+Proof. vm_compute. split; reflexivity. Qed.
+
+(** ** 1. Termination without ZeroDivisionError *)
+
+(** [lint.check] cannot raise ZeroDivisionError: a zero total is treated as
+    unknown, and a non-zero total cannot round to 0.0 unless it is below
+    2^-1074 (no number of at most 15 significant digits is). *)
+Theorem C20_no_crash : forall bs,
+  Forall not_tiny (blocks_numbers bs) -> lint_check bs <> LErr LZeroDivision.
+Proof. exact no_zero_division_not_tiny. Qed.
+
+(** The same with the semantic condition "float(v) is 0.0 only if v is 0". *)
+Theorem C20_no_crash_sane : forall bs,
+  Forall sane (blocks_numbers bs) -> lint_check bs <> LErr LZeroDivision.
+Proof. exact no_zero_division. Qed.
+
+Example C20_no_crash_ex :
+  Forall not_tiny (blocks_numbers eggs_recipe) /\
+  Forall not_tiny (blocks_numbers [[up_front "spam" (NInt 0) (Some "g"%string);
+                                    use_qty (up_front "spam" (NInt 0) (Some "g"%string)) "fry" (NInt 1) (Some "g"%string)]]) /\
+  lint_check [[up_front "spam" (NInt 0) (Some "g"%string);
+               use_qty (up_front "spam" (NInt 0) (Some "g"%string)) "fry" (NInt 1) (Some "g"%string)]]
+  = LOk [(sub_recipe_quantity_unknown, s "spam")].
+Proof.
+  split; [|split].
+  - apply Forall_not_tiny_b. vm_compute. reflexivity.
+  - apply Forall_not_tiny_b. vm_compute. reflexivity.
+  - vm_compute. reflexivity.
+Qed.
+
+(** ** 2. Unused ingredients *)
+
+(** An 'unused ingredient' lint is reported exactly for the hidden
+    single-output sub recipes written in the recipe that no written reference
+    refers to, once each, with that sub recipe's name; and nothing else comes
+    out of [check_for_unused_ingredients]. *)
+Theorem C20_unused_iff : forall bs l,
+  check_unused bs = LOk l ->
+  (forall name, In (unused_ingredient, name) l ->
+     exists x, is_hidden x = true /\ occurs x bs /\ ~ is_referenced x bs /\ first_name_text x = LOk name) /\
+  (forall x, is_hidden x = true -> occurs x bs -> ~ is_referenced x bs ->
+     exists x' name, node_eqb x x' = true /\ first_name_text x' = LOk name /\ In (unused_ingredient, name) l) /\
+  Forall (fun li => fst li = unused_ingredient) l /\
+  List.length l = List.length (unused_set bs) /\ distinct (unused_set bs).
+Proof. exact unused_iff. Qed.
+
+(** The set itself. *)
+Theorem C20_unused_set : forall bs,
+  (forall x, In x (unused_set bs) -> is_hidden x = true /\ occurs x bs /\ ~ is_referenced x bs) /\
+  (forall x, is_hidden x = true -> occurs x bs -> ~ is_referenced x bs ->
+     exists x', In x' (unused_set bs) /\ node_eqb x x' = true) /\
+  distinct (unused_set bs).
+Proof. exact unused_set_spec. Qed.
+
+(** ** 3. The verdict on the uses of one output *)
+
+(** Full statement (kept here):
+      exact_uses us -> decisive us -> verdict_model us = verdict_spec us
+    where decisive = the exact sum is not within 1e-9 of the 0.98 / 1 / 1.02
+    boundaries.  Proved for runs in which the float accumulator made no
+    rounding error ([run_exact]: e.g. dyadic proportions and quantities) and
+    whose final 2% test decides as in exact arithmetic ([tolerance_agrees]).
+    Missing for the full statement: an error bound for the accumulated
+    roundings (a few units of 2^-53 per use) against the 1e-9 margin.  At the
+    boundary itself the float sum can differ: see
+    [C20_exact_full_use_remainder_refuted]. *)
+Theorem C20_verdict_spec_partial : forall sr idx refs us l,
+  output_lints sr idx refs = LOk l ->
+  Forall2 (fun r u => use_of (total_quantity sr) r = Some u) refs us ->
+  (forall name, run_exact name (total_quantity sr) (mkSt false f_zero []) refs) ->
+  (forall name st, refs_fold name (total_quantity sr) (mkSt false f_zero []) refs = LOk st ->
+     st_problem st = false -> tolerance_agrees (st_used st)) ->
+  kinds l = verdict_spec us.
+Proof. exact verdict_spec_exact_runs. Qed.
+
+(** 1 of 4 eggs, then a half, no remainder: a quarter is left -> 'not used up'. *)
+Example C20_verdict_spec_ex :
+  let refs := [Reference eggs 0 (AQty (qty (NInt 1) None)); Reference eggs 0 (AProp (PropVal (NFrac 1 2) false (s " of")))] in
+  exists l us,
+    output_lints eggs 0 refs = LOk l /\
+    Forall2 (fun r u => use_of (total_quantity eggs) r = Some u) refs us /\
+    (forall name, run_exact name (total_quantity eggs) (mkSt false f_zero []) refs) /\
+    (forall name st, refs_fold name (total_quantity eggs) (mkSt false f_zero []) refs = LOk st ->
+       st_problem st = false -> tolerance_agrees (st_used st)) /\
+    kinds l = [sub_recipe_not_used_up] /\ verdict_spec us = [sub_recipe_not_used_up].
+Proof.
+  cbv zeta. eexists. eexists. split; [vm_compute; reflexivity|]. split.
+  - constructor; [vm_compute; reflexivity|]. constructor; [vm_compute; reflexivity | constructor].
+  - split; [intro name; vm_compute; repeat split; reflexivity|]. split.
+    + intros name st H _. vm_compute in H. inversion H; subst. vm_compute. reflexivity.
+    + split; vm_compute; reflexivity.
+Qed.
+
+(** Known finding F16: 6 + 15 + 31 + 3 = 55 ml of 55 ml are used and then
+    "the rest": the documented verdict is 'no remainder left', the float sum is
+    0.9999999999999999 and nothing is reported. *)
+Theorem C20_exact_full_use_remainder_refuted :
+  exists bs sr refs us,
+    visit_refs_blocks bs = [(sr, [(0%nat, refs)])] /\
+    Forall2 (fun r u => use_of (total_quantity sr) r = Some u) refs us /\
+    verdict_spec us = [sub_recipe_reference_non_positive_remainder] /\
+    lint_check bs = LOk [].
+Proof.
+  exists spam55_recipe, spam55. eexists. eexists.
+  split; [vm_compute; reflexivity|]. split.
+  - repeat (constructor; [vm_compute; reflexivity|]). constructor.
+  - split; vm_compute; reflexivity.
+Qed.
+
+(** ** 4. Scaling *)
+
+(** For int / Fraction data, an int / Fraction positive factor and exact unit
+    conversions the verdicts (kinds, in order) are the same at every scale:
+    value * conversion / total is then computed in exact arithmetic before the
+    single rounding, and [b64] depends only on the rational value
+    (Proofs/LintB64.v), so the float accumulator takes the very same values.
+    This includes quantities without units (conversion = the int 1). *)
+Theorem C20_scale_invariant_exact : forall k bs bs' l l',
+  exact k -> (0 < to_Q k)%Q -> Forall exact (blocks_numbers bs) -> exact_conversions bs ->
+  scale_blocks k bs = Some bs' ->
+  lint_check bs = LOk l -> lint_check bs' = LOk l' -> kinds l = kinds l'.
+Proof. exact scale_invariant_exact. Qed.
+
+Example C20_scale_invariant_exact_ex :
+  exact (NFrac 1 10) /\ (0 < to_Q (NFrac 1 10))%Q /\ Forall exact (blocks_numbers eggs_recipe) /\
+  exact_conversions eggs_recipe /\
+  exists bs' l', scale_blocks (NFrac 1 10) eggs_recipe = Some bs' /\ lint_check bs' = LOk l' /\
+                 kinds l' = [sub_recipe_reference_non_positive_remainder].
+Proof.
+  split; [reflexivity|]. split; [reflexivity|]. split; [apply Forall_exact_b; vm_compute; reflexivity|]. split.
+  - unfold exact_conversions. vm_compute. repeat constructor.
+  - eexists. eexists. split; [vm_compute; reflexivity|]. split; vm_compute; reflexivity.
+Qed.
+
+(** Not so when a conversion factor is a float (lb -> g = 453.59237): the
+    product value * conversion is rounded before the division, differently at
+    different scales, and the remainder test [>= 1.0] is exact.  100000 lb of
+    45359237 g, then "remaining": reported at scale 1, not at scale 5/3. *)
+Theorem C20_scale_invariant_float_conversion_refuted :
+  exists k bs bs' l l',
+    exact k /\ (0 < to_Q k)%Q /\ Forall exact (blocks_numbers bs) /\
+    scale_blocks k bs = Some bs' /\ lint_check bs = LOk l /\ lint_check bs' = LOk l' /\
+    kinds l <> kinds l'.
+Proof.
+  exists (NFrac 5 3), spam_lb_recipe. eexists. eexists. eexists.
+  split; [reflexivity|]. split; [reflexivity|]. split; [apply Forall_exact_b; vm_compute; reflexivity|].
+  split; [vm_compute; reflexivity|]. split; [vm_compute; reflexivity|]. split; [vm_compute; reflexivity|].
+  vm_compute. discriminate.
+Qed.
